@@ -45,7 +45,9 @@ GetMember(ms, path) ==
 (* identity (file, line) so that C11 can see WHICH definition was chosen   *)
 TypeOfDef(d) ==
     CASE d.k = "alias" -> [k |-> "alias", name |-> d.name, to |-> d.t, dfile |-> d.file, dline |-> d.line]
-      [] d.k = "enum" -> [k |-> "enum", n |-> d.n, name |-> d.name, dfile |-> d.file, dline |-> d.line]
+      [] d.k = "enum" -> [k |-> "enum", n |-> d.n, name |-> d.name, dfile |-> d.file, dline |-> d.line,
+                          \* the member values in declaration order (bit sequences): the enum's value domain
+                          vals |-> [x \in 1..Len(d.members) |-> d.members[x].def.bits]]
       [] d.k = "msg" -> [k |-> "msg", name |-> d.name, ext |-> d.ext, fields |-> d.fields,
                          dfile |-> d.file, dline |-> d.line]
 
